@@ -1,7 +1,7 @@
 (* C07 - Deleting an index range deletes exactly those reducible atoms.
    This file holds statements only; every proof is `exact <lemma from Proofs/>`. *)
 From Coq Require Import ZArith NArith List Bool.
-From Lithium Require Import PyBase TcRecord Testcase Spec TestcaseProofs.
+From Lithium Require Import PyBase TcRecord Testcase Spec TestcaseProofs SliceCorollaries.
 Import ListNotations.
 Open Scope Z_scope.
 
@@ -32,6 +32,26 @@ Theorem C07_rmslice_spec : forall t (a b : Z) t', wf t -> rmslice t a b = Ok t' 
   tc_len t' = tc_len t - (hi - lo).
 Proof. exact rmslice_spec. Qed.
 
+(* the two ends of the range scale.  An empty range [x,x) - whatever integers a, b clamp to the
+   same rank - returns an object equal to the source in every field, not merely in its bytes *)
+Theorem C07_empty_range_identity : forall t (a b : Z) t', wf t -> rmslice t a b = Ok t' ->
+  py_clamp (tc_len t) a = py_clamp (tc_len t) b -> t' = t.
+Proof. exact rmslice_empty_range_id. Qed.
+
+(* the full range [0,len) leaves exactly the non-reducible parts, in their order, and nothing
+   reducible; before/after untouched *)
+Theorem C07_full_range : forall t t', wf t -> rmslice t 0 (tc_len t) = Ok t' ->
+  zipped t' = filter (fun x => negb (snd x)) (zipped t) /\ tc_len t' = 0 /\
+  tc_before t' = tc_before t /\ tc_after t' = tc_after t.
+Proof. exact rmslice_full_range. Qed.
+
+(* len() after a removal: never negative, never larger, and exactly the width smaller *)
+Theorem C07_len_after : forall t (a b : Z) t', wf t -> rmslice t a b = Ok t' ->
+  py_clamp (tc_len t) a <= py_clamp (tc_len t) b ->
+  0 <= tc_len t' <= tc_len t /\
+  tc_len t' = tc_len t - (py_clamp (tc_len t) b - py_clamp (tc_len t) a).
+Proof. exact rmslice_len. Qed.
+
 (* in the functional model copy is the identity (aliasing is covered by the
    correspondence check, which compares the source object after every operation) *)
 Theorem C07_copy : forall t, copy t = t.
@@ -56,5 +76,8 @@ Print Assumptions C07_xlat_total.
 Print Assumptions C07_rmslice_total.
 Print Assumptions C07_clamp.
 Print Assumptions C07_rmslice_spec.
+Print Assumptions C07_empty_range_identity.
+Print Assumptions C07_full_range.
+Print Assumptions C07_len_after.
 Print Assumptions C07_copy.
 Print Assumptions C07_precondition_needed_refuted.
